@@ -1022,10 +1022,97 @@ def s_retain(E, a, info):
     return UNIT
 
 
+def _slice(E, p):
+    """a slice reference is modelled as the pointer to the place holding the Vec (or to an array value)"""
+    v = E.read(p) if isinstance(p, Ptr) else p
+    if isinstance(v, Own):
+        o = E.heap[v.obj]
+        if not o.live:
+            raise UB('use-after-free', 'use of a dropped Vec through a slice')
+        return ('vec', v.obj, o.value)
+    if isinstance(v, Agg) and v.name == 'array':
+        return ('arr', p, list(v.fields))
+    raise Unsupported('slice operation on %r' % (v,))
+
+
+@summ('core::slice::<impl [T]>::get', 'core::slice::<impl [T]>::get_mut', 'core::slice::<impl [T]>::get_unchecked')
+def s_slice_get(E, a, info):
+    kind, ref, items = _slice(E, a[0])
+    i = a[1]
+    if is_sym(i):
+        raise Unsupported('symbolic slice index')
+    if i >= len(items):
+        if info['key'].endswith('unchecked'):
+            raise UB('out-of-bounds', 'get_unchecked past the end')
+        return NONE
+    return some(Ptr(ref, (i,)) if kind == 'vec' else ref.field(i))
+
+
+@summ('core::slice::<impl [T]>::len')
+def s_slice_len(E, a, info):
+    return len(_slice(E, a[0])[2])
+
+
+@summ('core::slice::<impl [T]>::is_empty')
+def s_slice_is_empty(E, a, info):
+    return len(_slice(E, a[0])[2]) == 0
+
+
+@summ('core::slice::<impl [T]>::first', 'core::slice::<impl [T]>::last')
+def s_slice_first(E, a, info):
+    kind, ref, items = _slice(E, a[0])
+    if not items:
+        return NONE
+    i = 0 if info['key'].endswith('first') else len(items) - 1
+    return some(Ptr(ref, (i,)) if kind == 'vec' else ref.field(i))
+
+
+@summ('core::slice::<impl [T]>::iter', 'core::slice::<impl [T]>::iter_mut')
+def s_slice_iter(E, a, info):
+    kind, ref, items = _slice(E, a[0])
+    if kind != 'vec':
+        raise Unsupported('iteration over an array slice')
+    return Agg('SliceIter', None, (ref, 0))
+
+
+@summ('<Vec as Index>::index', '<Vec as IndexMut>::index_mut', '<[T] as Index>::index')
+def s_vec_index(E, a, info):
+    kind, ref, items = _slice(E, a[0])
+    i = a[1]
+    if is_sym(i) or not isinstance(i, int):
+        raise Unsupported('slice index %r' % (i,))
+    if i >= len(items):
+        raise Panic('index out of bounds: the len is %d but the index is %d' % (len(items), i), 'Index::index')
+    return Ptr(ref, (i,)) if kind == 'vec' else ref.field(i)
+
+
+@summ('<Vec as IntoIterator>::into_iter')
+def s_vec_into_iter(E, a, info):
+    oid, o = _vec(E, a[0])
+    return Agg('VecIntoIter', None, (oid, 0))
+
+
+@summ('<&Vec as IntoIterator>::into_iter', '<&mut Vec as IntoIterator>::into_iter', 'Vec::iter', 'Vec::iter_mut', 'slice::iter', 'slice::iter_mut')
+def s_vec_iter(E, a, info):
+    oid, o = _vec(E, a[0])
+    return Agg('SliceIter', None, (oid, 0))
+
+
+@summ('<Vec as Deref>::deref', '<Vec as DerefMut>::deref_mut', 'Vec::as_slice', 'Vec::as_mut_slice')
+def s_vec_deref(E, a, info):
+    return a[0]
+
+
 @summ('<MapIter as IntoIterator>::into_iter', '<Iter as IntoIterator>::into_iter', '<* as IntoIterator>::into_iter')
 def s_iter_into_iter(E, a, info):
+    if isinstance(a[0], Own) and E.heap[a[0].obj].kind == 'vec':
+        return Agg('VecIntoIter', None, (a[0].obj, 0))
+    if isinstance(a[0], Ptr):
+        v = E.read(a[0])
+        if isinstance(v, Own) and E.heap[v.obj].kind == 'vec':
+            return Agg('SliceIter', None, (v.obj, 0))
     if isinstance(a[0], Agg) and a[0].name in ('MapIter', 'IntoIter', 'ExtractIf', 'MapAd', 'FilterAd', 'Range',
-                                               'KeysIter', 'ValuesIter', 'Drain'):
+                                               'KeysIter', 'ValuesIter', 'Drain', 'VecIntoIter', 'SliceIter'):
         return a[0]
     raise Unsupported('into_iter of %r' % (a[0],))
 
@@ -1060,6 +1147,24 @@ def iter_next(E, itptr):
         E.write(itptr, Agg(n, None, (oid, keys, pos + 1)))
         k = keys[pos]
         return some(tup(k, md.vals[k]))
+    if n == 'VecIntoIter':
+        oid, pos = it.fields
+        o = E.heap[oid]
+        if pos >= len(o.value):
+            return NONE
+        E.loop_iter('vec into_iter')
+        E.write(itptr, Agg(n, None, (oid, pos + 1)))
+        v = o.value[pos]
+        o.value[pos] = UNINIT         # moved out
+        return some(v)
+    if n == 'SliceIter':
+        oid, pos = it.fields
+        o = E.heap[oid]
+        if pos >= len(o.value):
+            return NONE
+        E.loop_iter('slice iter')
+        E.write(itptr, Agg(n, None, (oid, pos + 1)))
+        return some(Ptr(oid, (pos,)))
     if n == 'Drain':
         items, pos = it.fields
         if pos >= len(items):
